@@ -28,9 +28,15 @@ pub fn dump_items<'tcx>(tcx: TyCtxt<'tcx>) -> J {
                     for f in v.fields.iter() {
                         let fty = tcx.type_of(f.did).instantiate_identity().skip_norm_wip();
                         let vis = tcx.visibility(f.did);
+                        let freach = f
+                            .did
+                            .as_local()
+                            .map(|l| tcx.effective_visibilities(()).is_reachable(l))
+                            .unwrap_or(false);
                         fields.push(jobj! {
                             "name" => J::s(f.name.to_string()),
                             "ty" => ty_j(tcx, fty),
+                            "reachable" => J::Bool(freach),
                             "pub" => J::Bool(vis.is_public()),
                             "vis" => J::s(format!("{:?}", vis)),
                         });
@@ -50,9 +56,14 @@ pub fn dump_items<'tcx>(tcx: TyCtxt<'tcx>) -> J {
                 }
                 let t = tcx.type_of(did).instantiate_identity().skip_norm_wip();
                 let freeze = t.is_freeze(tcx, TypingEnv::post_analysis(tcx, did));
+                let reach = did
+                    .as_local()
+                    .map(|l| tcx.effective_visibilities(()).is_reachable(l))
+                    .unwrap_or(false);
                 adts.push(jobj! {
                     "path" => J::s(tcx.def_path_str(did)),
                     "kind" => J::s(format!("{:?}", kind)),
+                    "reachable" => J::Bool(reach),
                     "pub" => J::Bool(tcx.visibility(did).is_public()),
                     "variants" => J::Arr(variants),
                     "freeze" => J::Bool(freeze),
@@ -169,9 +180,14 @@ fn fn_item_j<'tcx>(tcx: TyCtxt<'tcx>, did: rustc_hir::def_id::DefId) -> J {
             .count();
         g = gg.parent.map(|p| tcx.generics_of(p));
     }
+    let reach = did
+        .as_local()
+        .map(|l| tcx.effective_visibilities(()).is_reachable(l))
+        .unwrap_or(false);
     jobj! {
         "path" => J::s(tcx.def_path_str(did)),
         "pub" => J::Bool(tcx.visibility(did).is_public()),
+        "reachable" => J::Bool(reach),
         "unsafe" => J::Bool(sig.safety().is_unsafe()),
         "inputs" => J::Arr(sig.inputs().iter().map(|t| ty_j(tcx, *t)).collect()),
         "output" => ty_j(tcx, sig.output()),
